@@ -777,4 +777,22 @@ theorem value_lt {v : Value} {t : List Value} (h : v ∈ t) : sizeOf v < sizeOf 
   simp
   omega
 
+/-! ### phase 8 (serde, src/feature_serde/mod.rs) -/
+/-- `E::custom(error)` for serde's `E: de::Error` (third-party, format-specific). ASSUMED: the serde error built by
+`custom` is determined by its argument (serde documents `custom(msg: impl Display)` as "an error with the message
+`msg`"); the Model keeps the argument itself — the `EvalexprError`, whose `Display` text (`Err.displayBuild`) is that
+message — instead of choosing a concrete `E`. Nothing is assumed about `Deserializer::deserialize_str` beyond calling
+`visit_str` with the string it decodes (that call is serde's, not translated). -/
+def de_custom (e : Err) : Err := e
+
+/-- an iterator struct (state `σ`, translated `Iterator::next : fuel → σ → Res (Option α × σ)`) used as `impl Iterator`:
+the items `next` yields until it returns `None`; `.error (.panic …)` when `fuel` calls of `next` were not enough -/
+def collect_iter (next : σ → Res (Option α × σ)) : Nat → σ → Res (List α)
+  | 0, _ => .error (.panic cl!"impl Iterator: not exhausted within the fuel")
+  | fuel + 1, s =>
+    match next s with
+    | .error e => .error e
+    | .ok (none, _) => .ok []
+    | .ok (some a, s') => (collect_iter next fuel s').map (a :: ·)
+
 end Evalexpr.Rs
